@@ -225,6 +225,15 @@ mechanisms:
           method: GET
         cache_ttl: 0s
         continue_pipeline_on_error: true
+    - id: ctx_badtpl # a header template that does not parse: noticed when the request to the endpoint is built
+      type: generic
+      config:
+        endpoint:
+          url: http://ctxsvc/data
+          method: GET
+          headers:
+            X-Sub: "{{ .Subject.ID "
+        cache_ttl: 0s
   finalizers:
     - id: header
       type: header
@@ -298,6 +307,8 @@ var subjectHandlerPool = []handlerSpec{
 	{id: "cel_true", typ: "authorizer", alwaysOK: 1}, {id: "cel_false", typ: "authorizer", alwaysOK: -1},
 	{id: "remote", typ: "authorizer", party: "pdp"},
 	{id: "ctx", typ: "contextualizer", party: "ctxsvc"}, {id: "ctx_cont", typ: "contextualizer", party: "ctxsvc", cont: true},
+	// fails with a configuration error while the request is served (every kind of error has to end in a refusal)
+	{id: "ctx_badtpl", typ: "contextualizer", alwaysOK: -1},
 }
 
 var finalizerPool = []handlerSpec{
